@@ -147,8 +147,8 @@ Proof. eexists. split; vm_compute; reflexivity. Qed.
       recursively — the form every written-and-re-read glyph has) — and the font info satisfies
       [wf_sinfo] (FontInfo::validate accepts, integer fields within their machine types).
     On that domain glyphs (libs included), font info and groups come back exactly.  Values of the
-    font lib, layer libs and guideline libs are compared as the plist crate compares them: a
-    dictionary is a map, the order of its keys is not observable ([pv_eqv], decided by the
+    font lib, layer libs and guideline libs are compared as maps: the order of the keys of a
+    dictionary (reached through dictionaries) is not observable ([pv_eqv], decided by the
     normal form [nf] of Model/FontReal.v; C01_plist_equality_is_map_equality). *)
 Theorem C01_roundtrip_real : forall pf ff ff3 fi fh (K : codecs),
   L1_glif pf ff ff3 fi fh -> codecs_ok K ->
@@ -224,10 +224,12 @@ Proof. exact plist_files_domains_inhabited. Qed.
     - kerning.plist: name -> name -> number, a number written as <integer> when it equals its
       rounding and lies in the i32 range and as <real> otherwise (cf70ca2), either read as f64
       ([C01_kerning_number_examples]).
-    The equality of lib values is the plist crate's: dictionaries are maps, the order of keys (at
-    any depth below dictionaries) is not observable ([C01_plist_equality_is_map_equality]); it is
-    decided by the normal form [nf], which on every real dictionary is the recursive key sort the
-    writer applies ([C01_normal_form_is_recursive_key_sort]).
+    Lib values are compared as maps: the order of the keys of a dictionary reached through
+    dictionaries only is not observable ([C01_plist_equality_is_map_equality]; these are the
+    dictionaries the writer's recursive sort reorders; below an array the key order is kept by
+    writer and reader and compared exactly); decided by the normal form [nf], which on every
+    real dictionary is the recursive key sort the writer applies
+    ([C01_normal_form_is_recursive_key_sort]).
 
     PROVED: [codecs_ok] of this instance ([C01_all_files_lawful]), so the round trip needs
 
@@ -282,3 +284,9 @@ Example C01_all_files_domains_inhabited :
   (forall pf ff3, wf_li pf ff3 (None, Some lib_sample)) /\
   (forall of_bits v, wf_num (of_bits v) -> wf_kerning of_bits [([65], [([66], v)])]).
 Proof. split; [exact lib_sample_wf|split; [exact groups_sample_wf|split; [exact li_sample_wf|exact kerning_sample_wf]]]. Qed.
+(** ... jointly: a font with a non-default font info (two guidelines, one carrying a lib), a font
+    lib with nested dictionaries, groups, and a default layer with a layer lib and the sample glyph
+    is in the domain of C01_roundtrip_real_all_files whatever the library functions are *)
+Example C01_all_files_sample_font_valid : forall pf ff ff3 fi fh to_bits of_bits lw,
+  font_valid _ (sample_font pf ff ff3 fi fh to_bits of_bits lw).
+Proof. exact sample_font_valid. Qed.
